@@ -1,5 +1,7 @@
 pub mod c02;
 pub mod c03;
+pub mod c04;
+pub mod c14;
 pub mod life;
 
 use crate::explore::Harness;
@@ -22,6 +24,8 @@ pub fn plan(prop: &str, tier: Tier, seed: u64) -> Option<Plan> {
   match prop {
     "C02" => Some(c02::plan(tier, seed)),
     "C03" => Some(c03::plan(tier, seed)),
+    "C04" => Some(c04::plan(tier, seed)),
+    "C14" => Some(c14::plan(tier, seed)),
     "C01" => Some(life::plan("C01", tier, seed)),
     "C05" => Some(life::plan("C05", tier, seed)),
     "C06" => Some(life::plan("C06", tier, seed)),
@@ -35,6 +39,8 @@ pub fn by_name(name: &str) -> Option<Arc<dyn Harness>> {
   match prop {
     "C02" => c02::by_name(name),
     "C03" => c03::by_name(name),
+    "C04" => c04::by_name(name),
+    "C14" => c14::by_name(name),
     "C01" | "C05" | "C06" => life::by_name(name),
     _ => None,
   }
